@@ -113,3 +113,26 @@ void h_glue(void) {
   if (g_pi_result != RESULT_OK) { __CPROVER_assert(w == g_pi_result && g_wr_calls == 0, "[C07] a rejected text writes nothing"); }
   else { __CPROVER_assert(g_wr_calls == 1 && g_written == g_pi_value && w == g_wr_result, "[C06,C07] exactly the parsed raw value is written"); CANARY("write"); }
 }
+
+/* the decoded value as a float (used for KNX and for range display): same value as the rendered one */
+void h_float_raw(void) {
+  NDT t = nondet_NDT(); unsigned value = nondet_uint(); float out = 12345.0f;
+  __CPROVER_assume(spec_ndt_valid(&t) && (t.m_bitCount >= 32 || value < (1u << t.m_bitCount)));
+  result_t r = NDT_getFloatFromRawValue(&t, value, &out);
+  if (!NDT_FLAG(&t, REQ) && value == t.m_replacement) { __CPROVER_assert(r == RESULT_EMPTY, "[C05] the replacement pattern has no float value"); CANARY("null"); }
+  else if (spec_range(&t, value) != 0) { __CPROVER_assert(r == (spec_range(&t, value) == 1 ? RESULT_ERR_OUT_OF_RANGE : RESULT_EMPTY), "[C05] a pattern outside the value range is rejected"); }
+  else if (NDT_FLAG(&t, EXP)) {
+    float f = spec_bits_to_float(value);
+    if (__CPROVER_isfinitef(f)) {
+      float scaled = f; _Bool inf = 0;
+      if (f != 0.0f) { if (t.m_divisor < 0) { scaled = UF_MUL(f, (float)(-t.m_divisor)); inf = !__CPROVER_isfinitef(scaled); } else if (t.m_divisor > 1) scaled = UF_DIV(f, (float)t.m_divisor); }
+      if (inf) __CPROVER_assert(r == RESULT_ERR_OUT_OF_RANGE, "[C05] an IEEE value scaled beyond the float range is rejected");
+      else __CPROVER_assert(r == RESULT_OK && same_dbl(out, scaled), "[C05] an IEEE value is value times multiplier / divided by divisor");
+    }
+  } else {
+    long sv = NDT_FLAG(&t, SIG) ? spec_signed(&t, value) : (long)value;
+    float expect = t.m_divisor < 0 ? UF_MUL((float)sv, (float)(-t.m_divisor)) : t.m_divisor <= 1 ? (float)sv : UF_DIV((float)sv, (float)t.m_divisor);
+    __CPROVER_assert(r == RESULT_OK && same_dbl(out, expect), "[C05] the float value of an integer pattern is the signed / unsigned value times the multiplier or divided by the divisor");
+    CANARY("integer pattern");
+  }
+}
